@@ -218,10 +218,13 @@ const c04Base = `{
   },
   "parameters": {
    "Limit": {"name": "limit", "in": "query", "schema": {"type": "integer"}},
+   "PathId": {"name": "pid", "in": "path", "required": true, "schema": {"type": "string"}},
    "Detached": {"name": "det", "in": "query", "schema": {"type": "integer"}}
   },
   "requestBodies": {
    "Body": {"content": {"application/json": {"schema": {"$ref": "#/components/schemas/Obj"}}}},
+   "Form": {"content": {"multipart/form-data": {"schema": {"type": "object", "properties": {"f": {"type": "string"}}},
+            "encoding": {"f": {"contentType": "text/plain", "headers": {"X-E": {"schema": {"type": "string"}}}}}}}},
    "Detached": {"content": {"application/json": {"schema": {"type": "string"}}}}
   },
   "responses": {
@@ -238,6 +241,8 @@ const c04Base = `{
   "securitySchemes": {
    "basic": {"type": "http", "scheme": "basic"},
    "key": {"type": "apiKey", "in": "header", "name": "X-Key"},
+   "alias": {"$ref": "#/components/securitySchemes/basic"},
+   "Detached": {"type": "http", "scheme": "digest"},
    "oauth": {"type": "oauth2", "flows": {"implicit": {"authorizationUrl": "https://example.com/a", "scopes": {}}}}
   },
   "examples": {"One": {"value": 1}, "Str": {"value": "t"}, "Detached": {"value": "d"}},
@@ -259,7 +264,8 @@ const c04Base = `{
     "operationId": "postX",
     "requestBody": {"content": {"application/json": {"schema": {"$ref": "#/components/schemas/Comp"}},
                                 "application/xml": {"schema": {"type": "object", "properties": {"n": {"type": "integer", "default": 1}}}}}},
-    "responses": {"201": {"description": "c", "headers": {"X-A": {"schema": {"$ref": "#/components/schemas/Loose"}}}}},
+    "responses": {"201": {"description": "c", "headers": {"X-A": {"schema": {"$ref": "#/components/schemas/Loose"}},
+                                                         "X-C": {"content": {"text/plain": {"schema": {"type": "string"}}}}}}},
     "externalDocs": {"url": "https://example.com/o"}
    }
   },
@@ -268,6 +274,12 @@ const c04Base = `{
            "parameters": [{"name": "h", "in": "header", "schema": {"type": "array", "items": {"type": "string"}}},
                           {"name": "c", "in": "cookie", "schema": {"type": "string", "example": "s"}}],
            "responses": {"204": {"description": "n"}}}
+  },
+  "/w/{pid}": {
+   "delete": {"parameters": [{"$ref": "#/components/parameters/PathId"}], "responses": {"204": {"description": "n"}}},
+   "get": {"parameters": [{"$ref": "#/components/parameters/PathId"}], "responses": {"200": {"description": "d"}}},
+   "put": {"parameters": [{"name": "pid", "in": "path", "required": true, "schema": {"type": "integer"}}],
+           "requestBody": {"$ref": "#/components/requestBodies/Form"}, "responses": {"200": {"description": "d"}}}
   },
   "/z/{a}/{b}": {
    "get": {"parameters": [{"name": "a", "in": "path", "required": true, "schema": {"type": "string"}},
@@ -377,6 +389,23 @@ func (w *c04Walker) content(path []any, v any) {
 		if ex := asMap(mt["examples"]); ex != nil {
 			for _, n := range sortedKeys(ex) {
 				w.refOr("example", append(p, "examples", n), ex[n], func(pp []any, m map[string]any) { w.add("example", pp) })
+			}
+		}
+		if encs := asMap(mt["encoding"]); encs != nil {
+			for _, n := range sortedKeys(encs) {
+				enc := asMap(encs[n])
+				if enc == nil {
+					continue
+				}
+				w.add("encoding", append(p, "encoding", n))
+				if hs := asMap(enc["headers"]); hs != nil {
+					old := w.noref
+					w.noref = true // the loader does not resolve references under encoding.headers (DESIGN §7 #41)
+					for _, hn := range sortedKeys(hs) {
+						w.refOr("header", append(p, "encoding", n, "headers", hn), hs[hn], w.paramLike("header"))
+					}
+					w.noref = old
+				}
 			}
 		}
 	}
@@ -697,7 +726,7 @@ func c04InFragment(doc map[string]any) bool {
 					return false
 				}
 			}
-		case "parameter", "mediaType":
+		case "parameter", "mediaType", "header":
 			if m["schema"] == nil {
 				continue
 			}
@@ -776,6 +805,7 @@ var c04DetachTargets = map[string]string{
 	"parameter": "#/components/parameters/Detached", "requestBody": "#/components/requestBodies/Detached",
 	"response": "#/components/responses/Detached", "header": "#/components/headers/Detached",
 	"example": "#/components/examples/Detached", "link": "#/components/links/Detached",
+	"securityScheme": "#/components/securitySchemes/Detached",
 }
 
 func replaceByRef(kind string, detach bool, extra map[string]any) func(*c04Builder, c04Site, map[string]any) {
@@ -801,13 +831,13 @@ func c04Injections() []c04Inj {
 	// every object kind with an Extensions map: a non-extension extra field, and its benign twin
 	for _, cl := range []string{"root", "info", "license", "contact", "server", "serverVar", "tag", "externalDocs", "components",
 		"schema", "parameter", "header", "mediaType", "requestBody", "response", "operation", "pathItem", "securityScheme",
-		"oauthFlows", "oauthFlow", "example", "link"} {
+		"oauthFlows", "oauthFlow", "example", "link", "encoding"} {
 		add("extra:bogus", cl, always, setKey("bogus", 1))
 		add("extra:x-ok", cl, always, setKey("x-ok", 1))
 		add("extra:summary2", cl, always, setKey("summary2", "s"))
 	}
 	// reference wrappers: siblings and unresolved
-	for _, k := range []string{"schema", "innerSchema", "parameter", "requestBody", "response", "header", "example", "link"} {
+	for _, k := range []string{"schema", "innerSchema", "parameter", "requestBody", "response", "header", "example", "link", "securityScheme"} {
 		add("ref:sibling-bogus", "ref:"+k, always, setKey("bogus", 1))
 		add("ref:sibling-description", "ref:"+k, always, setKey("description", "d"))
 		add("ref:sibling-x", "ref:"+k, always, setKey("x-ext", 1))
@@ -815,7 +845,7 @@ func c04Injections() []c04Inj {
 	}
 	// value objects replaced by references (resolved / unresolved / with sibling)
 	for cl, k := range map[string]string{"schema": "schema", "parameter": "parameter", "requestBody": "requestBody", "response": "response",
-		"header": "header", "example": "example", "link": "link"} {
+		"header": "header", "example": "example", "link": "link", "securityScheme": "securityScheme"} {
 		kind := k
 		notComponent := func(m map[string]any) bool { return true }
 		add("toref:resolved", cl, notComponent, replaceByRef(kind, false, nil))
@@ -884,6 +914,14 @@ func c04Injections() []c04Inj {
 			ks := sortedKeys(m)
 			m["ok.Name_1-x"] = deepCopy(m[ks[len(ks)-1]])
 		})
+		// names with unusual characters, for every section: outside and inside [a-zA-Z0-9._-]+
+		for _, nm := range []string{"", "a/b", "a b", "caf\u00e9", "a#b", "{x}", "A", "9", "-", "_.", "x-ext"} {
+			nm := nm
+			add(fmt.Sprintf("name:%q", nm), "section:"+s, always, func(_ *c04Builder, _ c04Site, m map[string]any) {
+				ks := sortedKeys(m)
+				m[nm] = deepCopy(m[ks[len(ks)-1]])
+			})
+		}
 	}
 	// paths
 	add("paths:no-slash", "paths", always, func(_ *c04Builder, _ c04Site, m map[string]any) {
@@ -923,6 +961,87 @@ func c04Injections() []c04Inj {
 					map[string]any{"name": "n", "in": "path", "required": true, "schema": map[string]any{"type": "string"}}},
 				"responses": map[string]any{"200": map[string]any{"description": "d"}}}}
 	})
+	// every subset of the operations of one path item declares the template variable (sorted order: delete, get, put)
+	pathParam := func(name string) map[string]any {
+		return map[string]any{"name": name, "in": "path", "required": true, "schema": map[string]any{"type": "string"}}
+	}
+	okResp := func() map[string]any { return map[string]any{"200": map[string]any{"description": "d"}} }
+	for mask := 0; mask < 8; mask++ {
+		mask := mask
+		add(fmt.Sprintf("paths:multi-op-declared=%03b", mask), "paths", always, func(_ *c04Builder, _ c04Site, m map[string]any) {
+			pi := map[string]any{}
+			for i, meth := range []string{"delete", "get", "put"} {
+				op := map[string]any{"responses": okResp()}
+				if mask&(1<<i) != 0 {
+					op["parameters"] = []any{pathParam("v")}
+				}
+				pi[meth] = op
+			}
+			m["/m/{v}"] = pi
+		})
+		add(fmt.Sprintf("paths:multi-op-two-vars-declared=%03b", mask), "paths", always, func(_ *c04Builder, _ c04Site, m map[string]any) {
+			pi := map[string]any{"parameters": []any{pathParam("a")}}
+			for i, meth := range []string{"get", "patch", "post"} {
+				op := map[string]any{"responses": okResp()}
+				if mask&(1<<i) != 0 {
+					op["parameters"] = []any{map[string]any{"$ref": "#/components/parameters/PathId"}}
+				} else {
+					op["parameters"] = []any{}
+				}
+				pi[meth] = op
+			}
+			m["/m2/{a}/{pid}"] = pi
+		})
+	}
+	for _, meth := range []string{"connect", "head", "trace"} {
+		meth := meth
+		add("pathItem:add-op-without-parameters:"+meth, "pathItem", func(m map[string]any) bool { return m[meth] == nil }, func(_ *c04Builder, _ c04Site, m map[string]any) {
+			m[meth] = map[string]any{"responses": okResp()}
+		})
+	}
+	add("pathItem:drop-path-level-parameters", "pathItem", hasKey("parameters"), delKey("parameters"))
+	add("pathItem:path-level-parameters-to-first-op", "pathItem", hasKey("parameters"), func(_ *c04Builder, _ c04Site, m map[string]any) {
+		for _, meth := range c04Methods {
+			if op := asMap(m[meth]); op != nil {
+				op["parameters"] = append(append([]any{}, jlist(op["parameters"])...), jlist(deepCopy(m["parameters"]))...)
+				break
+			}
+		}
+		delete(m, "parameters")
+	})
+	add("pathItem:path-level-parameters-to-all-ops", "pathItem", hasKey("parameters"), func(_ *c04Builder, _ c04Site, m map[string]any) {
+		for _, meth := range c04Methods {
+			if op := asMap(m[meth]); op != nil {
+				op["parameters"] = append(append([]any{}, jlist(op["parameters"])...), jlist(deepCopy(m["parameters"]))...)
+			}
+		}
+		delete(m, "parameters")
+	})
+	add("op:drop-parameters", "operation", hasKey("parameters"), delKey("parameters"))
+	add("op:empty-parameters", "operation", hasKey("parameters"), setKey("parameters", []any{}))
+	// the path-template algebra on unusual templates (normalizeTemplatedPath): repeated variable, `*` suffix,
+	// unclosed brace, variable with unusual characters, empty variable
+	for _, t := range []struct {
+		tpl    string
+		params []string
+	}{
+		{"/d/{v}/{v}", []string{"v"}}, {"/d/{v}/{v}", []string{"v", "w"}}, {"/d/{v}/{v}", nil},
+		{"/s/{v*}", []string{"v"}}, {"/s/{v*}", []string{"v*"}}, {"/s/{v*}", nil},
+		{"/u/{v", []string{"v"}}, {"/u/{v", nil},
+		{"/c/{a.b-c}", []string{"a.b-c"}}, {"/c/{a.b-c}", []string{"a.b"}}, {"/c/{a b}", []string{"a b"}},
+		{"/e/{}", nil}, {"/e/{}", []string{"x"}},
+		{"/n/{a}{b}", []string{"a", "b"}}, {"/n/{a}{b}", []string{"a"}},
+		{"/q/{a}/x/{b}/y", []string{"b", "a"}}, {"/q/{a}/x/{b}/y", []string{"a", "c", "b"}},
+	} {
+		t := t
+		add(fmt.Sprintf("paths:template=%s,params=%v", t.tpl, t.params), "paths", always, func(_ *c04Builder, _ c04Site, m map[string]any) {
+			ps := []any{}
+			for _, n := range t.params {
+				ps = append(ps, pathParam(n))
+			}
+			m[t.tpl] = map[string]any{"get": map[string]any{"parameters": ps, "responses": okResp()}}
+		})
+	}
 	add("paths:override-ok", "paths", always, func(_ *c04Builder, _ c04Site, m map[string]any) {
 		m["/o/{n}"] = map[string]any{
 			"parameters": []any{map[string]any{"name": "n", "in": "path", "required": true, "schema": map[string]any{"type": "string"}}},
@@ -942,7 +1061,11 @@ func c04Injections() []c04Inj {
 	add("requestBody:no-content", "requestBody", always, delKey("content"))
 	add("requestBody:empty-content", "requestBody", always, setKey("content", map[string]any{}))
 	// parameter lists
-	add("params:duplicate", "parameters", always, func(_ *c04Builder, s c04Site, _ map[string]any) {})
+	for i := 0; i < 4; i++ {
+		add(fmt.Sprintf("params:duplicate[%d]", i), "parameters", always, nil)
+		add(fmt.Sprintf("params:same-name-other-in[%d]", i), "parameters", always, nil)
+		add(fmt.Sprintf("params:duplicate-inline-of[%d]", i), "parameters", always, nil)
+	}
 	// parameters
 	isQuery := func(m map[string]any) bool { return m["in"] == "query" }
 	add("param:no-name", "parameter", always, delKey("name"))
@@ -974,7 +1097,7 @@ func c04Injections() []c04Inj {
 	add("param:content-bad-example-no-schema-check", "parameter", hasKey("content"), setKey("example", 12345))
 	add("param:content-with-bad-examples-object", "parameter", hasKey("content"), setKey("examples", map[string]any{"e": map[string]any{}}))
 	_ = isQuery
-	for _, cl := range []string{"parameter", "mediaType"} {
+	for _, cl := range []string{"parameter", "mediaType", "header"} {
 		cl := cl
 		add("example:mismatch", cl, hasKey("schema"), nil)
 		add("example:match", cl, hasKey("schema"), nil)
@@ -993,14 +1116,34 @@ func c04Injections() []c04Inj {
 	// headers
 	add("header:name", "header", always, setKey("name", "X"))
 	add("header:in", "header", always, setKey("in", "header"))
-	add("header:style-form", "header", always, setKey("style", "form"))
-	add("header:style-simple-explode", "header", always, func(_ *c04Builder, _ c04Site, m map[string]any) { m["style"] = "simple"; m["explode"] = true })
+	for _, st := range []string{"form", "simple", "label", "matrix", "spaceDelimited", "pipeDelimited", "deepObject", "weird", ""} {
+		for _, ex := range []any{nil, true, false} {
+			st, ex := st, ex
+			add(fmt.Sprintf("header:style=%s,explode=%v", st, ex), "header", always, func(_ *c04Builder, _ c04Site, m map[string]any) {
+				if st == "" {
+					delete(m, "style")
+				} else {
+					m["style"] = st
+				}
+				if ex == nil {
+					delete(m, "explode")
+				} else {
+					m["explode"] = ex
+				}
+			})
+		}
+	}
+	add("header:required", "header", always, setKey("required", true))
 	add("header:schema-and-content", "header", hasKey("schema"), setKey("content", map[string]any{"application/json": map[string]any{"schema": map[string]any{"type": "string"}}}))
 	add("header:neither", "header", always, func(_ *c04Builder, _ c04Site, m map[string]any) { delete(m, "schema"); delete(m, "content") })
 	add("header:content-two", "header", hasKey("content"), setKey("content", map[string]any{
 		"application/json": map[string]any{"schema": map[string]any{"type": "string"}}, "text/plain": map[string]any{"schema": map[string]any{"type": "string"}}}))
 	// media types
 	add("mediaType:encoding-bogus(#28)", "mediaType", always, setKey("encoding", map[string]any{"p": map[string]any{"contentType": "text/plain", "bogus": 1}}))
+	add("mediaType:encoding-header-named", "mediaType", always, setKey("encoding", map[string]any{"p": map[string]any{"contentType": "text/plain",
+		"headers": map[string]any{"X-E": map[string]any{"name": "X", "schema": map[string]any{"type": "string"}}}}}))
+	add("mediaType:encoding-header-ok", "mediaType", always, setKey("encoding", map[string]any{"p": map[string]any{"contentType": "text/plain",
+		"headers": map[string]any{"X-E": map[string]any{"schema": map[string]any{"type": "string"}}}}}))
 	add("mediaType:encoding-ok", "mediaType", always, setKey("encoding", map[string]any{"p": map[string]any{"contentType": "text/plain", "x-e": 1}}))
 	add("mediaType:no-schema-with-example", "mediaType", always, func(_ *c04Builder, _ c04Site, m map[string]any) {
 		delete(m, "schema")
@@ -1098,14 +1241,49 @@ func applyInjection(b *c04Builder, inj c04Inj, site c04Site) bool {
 	m := asMap(at(b.doc, site.path))
 	if site.class == "parameters" {
 		l := jlist(at(b.doc, site.path))
-		if inj.name != "params:duplicate" || len(l) == 0 {
+		var i int
+		var kind string
+		for _, k := range []string{"params:duplicate[%d]", "params:same-name-other-in[%d]", "params:duplicate-inline-of[%d]"} {
+			if n, _ := fmt.Sscanf(inj.name, k, &i); n == 1 {
+				kind = k
+				break
+			}
+		}
+		if kind == "" || i >= len(l) {
 			return false
 		}
-		first := deepCopy(l[0])
-		if fm := asMap(first); fm != nil && fm["$ref"] == nil && fm["in"] == "path" {
-			// a duplicated path parameter also changes the template count: keep it, both rules then apply
+		el := asMap(deepCopy(l[i]))
+		switch kind {
+		case "params:duplicate[%d]":
+			// the same entry again (a reference again when it was one); for a path parameter the template rule applies as well
+		case "params:duplicate-inline-of[%d]", "params:same-name-other-in[%d]":
+			// an inline twin of the entry (the resolved parameter when the entry is a reference)
+			if r, ok := el["$ref"].(string); ok {
+				parts := strings.Split(r, "/")
+				if len(parts) != 4 {
+					return false
+				}
+				el = asMap(deepCopy(asMap(asMap(asMap(b.doc["components"])[parts[2]])[parts[3]])))
+				if el == nil {
+					return false
+				}
+			} else if kind == "params:duplicate-inline-of[%d]" {
+				el["description"] = "twin"
+			}
+			if kind == "params:same-name-other-in[%d]" {
+				switch el["in"] {
+				case "query":
+					el["in"] = "cookie"
+				case "header", "cookie":
+					el["in"] = "query"
+				default:
+					return false
+				}
+				delete(el, "style")
+				delete(el, "explode")
+			}
 		}
-		setAt(b.doc, site.path, append(append([]any{}, l...), first))
+		setAt(b.doc, site.path, append(append([]any{}, l...), el))
 		return true
 	}
 	if m == nil || !inj.applies(m) {
@@ -1173,7 +1351,7 @@ func c04Case(doc map[string]any, detach []any, opts map[string]any, tag string, 
 // injections whose verdict can depend on a validation option
 func c04OptionSensitive(name string) bool {
 	for _, p := range []string{"extra:", "ref:", "toref:", "example", "schema:default", "schema:example", "schema:format", "schema:pattern",
-		"schema:nested", "schema:xml", "schema:discriminator", "mediaType:encoding", "mediaType:no-schema", "param:content-"} {
+		"schema:nested", "schema:xml", "schema:discriminator", "mediaType:encoding-bogus", "mediaType:encoding-ok", "mediaType:no-schema", "param:content-"} {
 		if strings.HasPrefix(name, p) {
 			return true
 		}
